@@ -343,4 +343,135 @@ theorem enum_attained (s1 s2 : Seq) :
     obtain ⟨p2, hp2, rfl⟩ := mem_suffixes ht
     exact ⟨p1, p2, cols, ⟨hp1, hp2, (mem_enumAnchored cols _ _).mp hc⟩, by unfold enumBest; rw [← e]⟩
 
+/-! ### reversal: the affine score and the anchoring are symmetric -/
+
+omit S in
+theorem proj1_append (l1 l2 : List Col) : proj1 (l1 ++ l2) = proj1 l1 ++ proj1 l2 := by
+  induction l1 with
+  | nil => rfl
+  | cons c t ih => cases c <;> simp [proj1, ih]
+
+omit S in
+theorem proj2_append (l1 l2 : List Col) : proj2 (l1 ++ l2) = proj2 l1 ++ proj2 l2 := by
+  induction l1 with
+  | nil => rfl
+  | cons c t ih => cases c <;> simp [proj2, ih]
+
+omit S in
+theorem proj1_reverse (l : List Col) : proj1 l.reverse = (proj1 l).reverse := by
+  induction l with
+  | nil => rfl
+  | cons c t ih => cases c <;> simp [proj1, proj1_append, ih]
+
+omit S in
+theorem proj2_reverse (l : List Col) : proj2 l.reverse = (proj2 l).reverse := by
+  induction l with
+  | nil => rfl
+  | cons c t ih => cases c <;> simp [proj2, proj2_append, ih]
+
+/-- kind of the last column, `prev` when there is none -/
+def lastKind (prev : St) : List Col → St
+  | [] => prev
+  | c :: t => lastKind c.kind t
+
+omit S in
+theorem lastKind_append_singleton (prev : St) (l : List Col) (c : Col) : lastKind prev (l ++ [c]) = c.kind := by
+  induction l generalizing prev with
+  | nil => rfl
+  | cons d t ih => simp [lastKind, ih]
+
+theorem scoreFrom_append_singleton (prev : St) (l : List Col) (c : Col) :
+    scoreFrom S prev (l ++ [c]) = scoreFrom S prev l + colScore S (lastKind prev l) c := by
+  induction l generalizing prev with
+  | nil => simp [scoreFrom, lastKind]
+  | cons d t ih => simp only [List.cons_append, scoreFrom, lastKind, ih]; omega
+
+/-- kind of the first column, `m` when there is none -/
+def firstKind : List Col → St
+  | [] => .m
+  | c :: _ => c.kind
+
+omit S in
+theorem lastKind_reverse (l : List Col) : lastKind .m l.reverse = firstKind l := by
+  cases l with
+  | nil => rfl
+  | cons c t => simp [List.reverse_cons, lastKind_append_singleton, firstKind]
+
+/-- entering a column list from state `k` instead of `m` only changes the price of its first column -/
+theorem scoreFrom_eq_score (k : St) (l : List Col) :
+    scoreFrom S k l = score S l +
+      (match l with | [] => 0 | d :: _ => colScore S k d - colScore S .m d) := by
+  cases l with
+  | nil => simp [score, scoreFrom]
+  | cons d t => simp only [score, scoreFrom]; omega
+
+/-- the affine-gap score does not depend on the reading direction -/
+theorem score_reverse (l : List Col) : score S l.reverse = score S l := by
+  induction l with
+  | nil => rfl
+  | cons c t ih =>
+    rw [List.reverse_cons]
+    show scoreFrom S .m (t.reverse ++ [c]) = _
+    rw [scoreFrom_append_singleton, lastKind_reverse]
+    show score S t.reverse + _ = _
+    rw [ih]
+    show _ = colScore S .m c + scoreFrom S c.kind t
+    rw [scoreFrom_eq_score S c.kind t]
+    cases t with
+    | nil => simp [firstKind]; omega
+    | cons d t' =>
+      simp only [firstKind]
+      cases c <;> cases d <;> simp [colScore, Col.kind, gapCost] <;> omega
+
+omit S in
+/-- a suffix of a prefix of `s` is a prefix of a suffix of `s` -/
+theorem suffix_of_take {α} {l s : List α} {e : Nat} (h : l <:+ s.take e) :
+    ∃ p, p ≤ s.length ∧ l <+: s.drop p := by
+  obtain ⟨k, hk⟩ := h
+  refine ⟨k.length, ?_, ?_⟩
+  · have := congrArg List.length hk
+    simp only [List.length_append, List.length_take] at this
+    omega
+  · have hs : s = k ++ l ++ s.drop e := by rw [hk]; exact (List.take_append_drop e s).symm
+    refine ⟨s.drop e, ?_⟩
+    conv => rhs; rw [hs]
+    simp [List.append_assoc]
+
+omit S in
+/-- a prefix of a suffix of `s` is a suffix of a prefix of `s` -/
+theorem prefix_of_drop {α} {l s : List α} {p : Nat} (hp : p ≤ s.length) (h : l <+: s.drop p) :
+    l <:+ s.take (p + l.length) := by
+  obtain ⟨r, hr⟩ := h
+  refine ⟨s.take p, ?_⟩
+  have hs : s.take p ++ (l ++ r) = s := by rw [hr]; exact List.take_append_drop p s
+  generalize hk : s.take p = k at hs ⊢
+  have hkl : k.length = p := by rw [← hk]; simp [List.length_take]; omega
+  subst hs
+  rw [← hkl, List.take_length_add_append, List.take_left]
+
+omit S in
+/-- a column list anchored at the reversed prefixes `(s1.take e1).reverse`, `(s2.take e2).reverse`
+is, read backwards, a local alignment of `s1`, `s2` -/
+theorem local_of_anchored_reverse {s1 s2 : Seq} {e1 e2 : Nat} {cols : List Col}
+    (h : Anchored (s1.take e1).reverse (s2.take e2).reverse cols) :
+    ∃ p1 p2, IsLocal s1 s2 p1 p2 cols.reverse := by
+  have a1 : (proj1 cols.reverse) <:+ s1.take e1 := by
+    rw [proj1_reverse]; exact List.reverse_prefix.mp (by simpa using h.1)
+  have a2 : (proj2 cols.reverse) <:+ s2.take e2 := by
+    rw [proj2_reverse]; exact List.reverse_prefix.mp (by simpa using h.2)
+  obtain ⟨p1, hp1, h1⟩ := suffix_of_take a1
+  obtain ⟨p2, hp2, h2⟩ := suffix_of_take a2
+  exact ⟨p1, p2, hp1, hp2, h1, h2⟩
+
+omit S in
+/-- conversely a local alignment read backwards is anchored at the reversed prefixes that end where
+it ends -/
+theorem anchored_reverse_of_local {s1 s2 : Seq} {p1 p2 : Nat} {cols : List Col}
+    (h : IsLocal s1 s2 p1 p2 cols) :
+    Anchored (s1.take (p1 + (proj1 cols).length)).reverse (s2.take (p2 + (proj2 cols).length)).reverse
+      cols.reverse := by
+  constructor
+  · rw [proj1_reverse]; exact List.reverse_prefix.mpr (prefix_of_drop h.1 h.2.2.1)
+  · rw [proj2_reverse]; exact List.reverse_prefix.mpr (prefix_of_drop h.2.1 h.2.2.2)
+
 end Gv.Spec.SW
